@@ -449,20 +449,31 @@ func TestVerif_C04(t *testing.T) {
 			mk := func() *CfgSpec {
 				return &CfgSpec{Cred: s.cred, PNA: s.pna, TolInsecure: s.tolI, TolPSL: s.tolP, Origins: []OAtom{secureOriginAtoms[0]}}
 			}
+			relPool := allValidKindOriginAtoms()
+			if s.tolP {
+				relPool = append(relPool, contextOriginAtoms...)
+			}
 			for _, a := range allBadOrigins {
-				for _, shape := range [][]int{{0}, {1, 0}, {0, 1}, {1, 1, 0}, {1, 0, 1}, {0, 0}} {
-					c := mk()
-					c.Origins = nil
-					for _, k := range shape {
-						if k == 0 {
-							c.Origins = append(c.Origins, a)
-						} else {
-							c.Origins = append(c.Origins, secureOriginAtoms[3])
+				// neighbours: one fixed unrelated pattern, and every pattern of the tables that covers / is covered by a
+				fillers := append([]OAtom{secureOriginAtoms[3]}, relatedOriginAtoms(a, relPool)...)
+				for fi, filler := range fillers {
+					for _, shape := range [][]int{{0}, {1, 0}, {0, 1}, {1, 1, 0}, {1, 0, 1}, {0, 0}} {
+						if fi > 0 && (len(shape) == 1 || shape[0] == shape[len(shape)-1] && len(shape) == 2) {
+							continue // shapes without a neighbour were run with the first filler
 						}
-					}
-					c04RunSpec(r, l, c, entry)
-					if len(c.violations()) > 0 {
-						l.NontrivialKey(specKey(c), entry)
+						c := mk()
+						c.Origins = nil
+						for _, k := range shape {
+							if k == 0 {
+								c.Origins = append(c.Origins, a)
+							} else {
+								c.Origins = append(c.Origins, filler)
+							}
+						}
+						c04RunSpec(r, l, c, entry)
+						if len(c.violations()) > 0 {
+							l.NontrivialKey(specKey(c), entry)
+						}
 					}
 				}
 			}
